@@ -288,6 +288,10 @@ pub struct Knobs {
     pub max_depth: usize,
     /// allow two patterns of one mode to carry the same token type (rarely)
     pub duplicate_types: bool,
+    /// percentage of configurations drawn "wide": 5-12 modes, up to 12 shallow patterns per mode, up
+    /// to 20 transitions per mode (anything that searches, indexes or narrows by a count beyond the
+    /// usual handful should meet it)
+    pub wide_pct: usize,
 }
 
 impl Default for Knobs {
@@ -307,6 +311,7 @@ impl Default for Knobs {
             fancy_names: false,
             max_depth: 3,
             duplicate_types: true,
+            wide_pct: 4,
         }
     }
 }
@@ -524,12 +529,15 @@ impl GenConfig {
     }
 }
 
-const FANCY_NAMES: &[&str] = &["with space", "Q\"uote", "\u{fc}ml\u{e4}ut", "back\\slash", "semi;colon", "brace{}"];
+const FANCY_NAMES: &[&str] = &["with space", "Q\"uote", "\u{fc}ml\u{e4}ut", "back\\slash", "semi;colon", "brace{}", "dot.ted", "v1.2.", ".hidden", "a.dot"];
 
 pub fn gen_config(rng: &mut Rng, al: &Alphabet, k: &Knobs) -> GenConfig {
-    let n_modes = rng.range(k.modes.0, k.modes.1);
+    let wide = k.wide_pct > 0 && k.modes.1 > 1 && rng.chance(k.wide_pct, 100);
+    let (modes_r, pat_hi, max_depth, max_transitions) =
+        if wide { ((5, 12), k.patterns.1.max(12), k.max_depth.min(1), k.max_transitions.max(20)) } else { (k.modes, k.patterns.1, k.max_depth, k.max_transitions) };
+    let n_modes = rng.range(modes_r.0, modes_r.1);
     // token type pool: sparse numbers
-    let pool_n = rng.range(3, 9).max(k.patterns.1);
+    let pool_n = if wide { rng.range(14, 24) } else { rng.range(3, 9).max(pat_hi) };
     let mut pool: Vec<usize> = Vec::new();
     while pool.len() < pool_n {
         let t = gen_token_type(rng);
@@ -540,7 +548,7 @@ pub fn gen_config(rng: &mut Rng, al: &Alphabet, k: &Knobs) -> GenConfig {
     let mut config = Vec::new();
     let mut rxs = Vec::new();
     for m in 0..n_modes {
-        let mut n_pat = rng.range(k.patterns.0, k.patterns.1);
+        let mut n_pat = rng.range(k.patterns.0, pat_hi);
         if k.allow_empty_mode && rng.chance(1, 25) {
             n_pat = 0;
         }
@@ -561,7 +569,7 @@ pub fn gen_config(rng: &mut Rng, al: &Alphabet, k: &Knobs) -> GenConfig {
             // says what it is, not which pattern found it)
             let t = if k.duplicate_types && types.len() >= 2 && rng.chance(1, 10) { types[0] } else { *rng.pick(&cands) };
             types.push(t);
-            let depth = rng.range(0, k.max_depth);
+            let depth = rng.range(0, max_depth);
             let rx = gen_pattern_rx(rng, al, depth, k.allow_nullable);
             let lookahead = if k.lookahead_pct > 0 && rng.chance(k.lookahead_pct, 100) {
                 Some(LookaheadSpec {
@@ -577,7 +585,7 @@ pub fn gen_config(rng: &mut Rng, al: &Alphabet, k: &Knobs) -> GenConfig {
         // transitions: sorted by token type, targets existing modes
         let mut transitions: Vec<(usize, usize)> = Vec::new();
         if n_modes > 1 || rng.chance(1, 3) {
-            let nt = rng.range(0, k.max_transitions);
+            let nt = rng.range(0, max_transitions);
             for _ in 0..nt {
                 // mostly on types this mode produces, sometimes on foreign / unknown ones
                 let t = if !types.is_empty() && rng.chance(3, 4) {
@@ -601,6 +609,10 @@ pub fn gen_config(rng: &mut Rng, al: &Alphabet, k: &Knobs) -> GenConfig {
             format!("{}{}", rng.pick(FANCY_NAMES), m)
         } else if m == 0 && rng.chance(1, 3) {
             "INITIAL".to_string()
+        } else if !k.fancy_names && rng.chance(1, 40) {
+            // a very long mode name (file names are derived from mode names only in the DOT export,
+            // whose worlds use fancy_names and therefore never get one)
+            format!("L{}{}", "o".repeat(rng.range(64, 300)), m)
         } else {
             format!("M{}", m)
         };
